@@ -7,6 +7,7 @@ import shutil
 import sys
 
 out, prop = sys.argv[1], sys.argv[2]
+ROUND = int(sys.argv[3]) if len(sys.argv) > 3 else 2
 have = [int(n.split("-")[1]) for n in os.listdir("/verif/seeded") if n.startswith(prop + "-")]
 n = max(have, default=0)
 for k in (1, 2, 3):
@@ -18,5 +19,5 @@ for k in (1, 2, 3):
     shutil.copy(f"{out}/change{k}.diff", f"{d}/patch.diff")
     shutil.copy(f"{out}/change{k}_demo.py", f"{d}/demo.py")
     txt = open(f"{out}/change{k}.txt").read() if os.path.exists(f"{out}/change{k}.txt") else ""
-    json.dump({"property": prop, "round": 2, "needs": txt}, open(f"{d}/meta.json", "w"), indent=1)
+    json.dump({"property": prop, "round": ROUND, "needs": txt}, open(f"{d}/meta.json", "w"), indent=1)
     print(d)
